@@ -304,8 +304,8 @@ def st_sdmx_case(draw):
                "H_j^0 / H_j^0d with the UEG density matrix 3 n j1(kF u)/(kF u), times -1/4; l=1 features 0 by isotropy; "
                "compared with ueg_vector(rho) at rtol 1e-9 (measured agreement of the j=0,1 constants: 3e-13; SADM smooth "
                "3e-10), signature class j01 / j2 (the tabulated j=2 constants deviate 4e-6..8e-5, reported as a finding); "
-               "a gross deviation > 5e-4 has its own signature; non-trivial = rho != 1",
-          tolerances={"rtol": 1e-9, "gross_rtol": 5e-4})
+               "a deviation > 1.2e-4 (j=2) / 5e-4 has its own signature value_gross; non-trivial = rho != 1",
+          tolerances={"rtol": 1e-9, "gross_rtol_j2": 1.2e-4, "gross_rtol": 5e-4})
 def sdmx_ueg(case, ctx):
     _oracle_selftest()
     spec, n = case["sdmx"], case["rho"]
@@ -321,7 +321,8 @@ def sdmx_ueg(case, ctx):
             ctx.check(g == 0.0, ("value", "l1_nonzero", spec["cls"]), got=float(g), label=label)
         else:
             # a gross error first (own signature), then the sharp comparison
-            ctx.close([g], [w], ("value_gross", jcls, spec["cls"]), rtol=5e-4, spec=spec, rho=n, label=label)
+            # (j=2: the tabulated constants are off by 4e-6..7.9e-5, a recorded finding; anything beyond 1.2e-4 is new)
+            ctx.close([g], [w], ("value_gross", jcls, spec["cls"]), rtol=1.2e-4 if jcls == "j2" else 5e-4, spec=spec, rho=n, label=label)
             if jcls == "j2" and "sdmx_j2" in EXCLUDE_KNOWN:
                 ctx.event("excluded_known:sdmx_j2")
                 continue
@@ -389,7 +390,7 @@ def st_norm_case(draw):
 
 @subcheck("C13", "norm_ueg", st_norm_case, quick=1600, thorough=24000,
           rule="the four normaliser classes and two factory functions (drawn constants, powers in [-2,2]) x the four "
-               "semilocal modes x rho; oracle: get_ueg(rho) * x == fill_fwd(x, rho, inh_ueg) (1e-12) with inh_ueg = 1 in the "
+               "semilocal modes x rho; oracle: get_ueg(rho, inh_ueg) * x == fill_fwd(x, rho, inh_ueg) (1e-12) with inh_ueg = 1 in the "
                "meta-GGA modes (tau/tau_0) and 0 in the GGA modes (tau_W/tau_0), and the same through a one-element "
                "FeatNormalizerList.ueg_vector / get_normalized_feature_vector; non-trivial = normaliser not constant",
           tolerances={"rtol": 1e-12})
@@ -408,8 +409,17 @@ def norm_ueg(case, ctx):
     if nspec["kind"] != "const":
         ctx.nontrivial([nspec["kind"], mode, round(nspec["p1"], 1), round(nspec["p2"], 1), round(math.log10(n))])
     fwd = nrm.fill_fwd(np.array([x]), np.array([n]), np.array([inh]))
-    ctx.close(nrm.get_ueg(n) * np.array([x]), fwd, ("get_ueg_vs_fill_fwd", cls, type(nrm).__name__), rtol=1e-12,
+    # get_ueg(rho, inh): the class cannot know the semilocal mode, the caller supplies the UEG inhomogeneity value
+    # (trees before 7e8f37c have get_ueg(rho) only; there the meta-GGA value is simply wrong -> class inh_mgga)
+    try:
+        ueg_fac = nrm.get_ueg(n, inh)
+    except TypeError:
+        ueg_fac = nrm.get_ueg(n)
+    ctx.close(ueg_fac * np.array([x]), fwd, ("get_ueg_vs_fill_fwd", cls, type(nrm).__name__), rtol=1e-12,
               norm=nspec, slmode=mode, rho=n)
+    # default argument: the GGA value
+    ctx.close(nrm.get_ueg(n) * np.array([x]), nrm.fill_fwd(np.array([x]), np.array([n]), np.array([0.0])),
+              ("get_ueg_default_vs_fill_fwd_inh0", type(nrm).__name__), rtol=1e-12)
     # the same through the list API on a semilocal UEG row block
     nsl = 3 if mode in MGGA_MODES else 2
     sl = {"nst": [n, 0.0, CFC_DOC * n ** (5.0 / 3)], "npa": [n, 0.0, 1.0], "ns": [n, 0.0], "np": [n, 0.0]}[mode]
